@@ -298,7 +298,33 @@ class PyExtractor(Base):
                 raise Unsupported('path explosion')
         return paths
 
+    inline = {}
+
     def stmt(self, p, st):
+        if isinstance(st, ast.Assign) and isinstance(st.value, ast.Call) and ast.unparse(st.value.func) in self.inline:
+            # x = f(...): inline the callee (same parameter names are assumed to be passed through)
+            fn = self.inline[ast.unparse(st.value.func)]
+            sub = PyExtractor(dict(self.params), self.consts, self.tables, self.selfattrs)
+            sub.regname, sub.memname = self.regname, self.memname
+            names = [a.arg for a in fn.args.args if a.arg != 'self']
+            saved = dict(p.env)
+            for n_, a_ in zip(names, st.value.args):
+                v_ = None
+                if isinstance(a_, ast.Name) and a_.id in (self.regname, self.memname):
+                    if n_ != a_.id:
+                        raise Unsupported('inlined call renames registers/memory')
+                    continue
+                sub.params[n_] = self.ev(p, a_)
+            p.env = {}
+            outs = sub.run([p], fn.body)
+            for q in outs:
+                rv = q.ret if q.ret is not None else C(0)
+                q.env = dict(saved)
+                q.ret = None
+                q.done = False
+                for tg in st.targets:
+                    self.assign(q, tg, rv, st.lineno)
+            return outs
         if isinstance(st, ast.Assign):
             v = self.ev(p, st.value)
             if len(st.targets) == 1 and isinstance(st.targets[0], ast.Tuple) and isinstance(st.value, ast.Tuple):
